@@ -60,6 +60,9 @@ pub struct Profile {
     /// percentage of cases in which the broker's Receive Maximum differs between the connections of
     /// one session (legal: the value belongs to each CONNACK); otherwise the first connection's is used
     pub vary_rm_pct: u32,
+    /// configured Session Expiry Interval choices (0 = the broker drops the session when the
+    /// network connection closes, so every reconnect meets a fresh broker session)
+    pub session_expiry: Vec<u32>,
 }
 
 impl Default for Profile {
@@ -102,14 +105,15 @@ impl Default for Profile {
             fail_reason_pct: 15,
             rm: vec![None, None, Some(1), Some(2), Some(3), Some(5), Some(8), Some(20), Some(65535)],
             max_packet: vec![None],
-            max_qos: vec![None],
+            max_qos: vec![None, None, None, None, Some(0), Some(1)],
             payload_max: 40,
             topic_max: 12,
             pub_props: true,
             end_forget_pct: 10,
-            downgrade_pct: 0,
+            downgrade_pct: 35,
             final_drain: false,
             vary_rm_pct: 25,
+            session_expiry: vec![3600, 3600, 3600, 3600, 1, 0, u32::MAX],
         }
     }
 }
@@ -387,6 +391,15 @@ pub fn handshake(p: &Profile) -> BoxedStrategy<Handshake> {
             (0x80u8..0xA3).prop_map(Handshake::Reject),
             prop::collection::vec(any::<u8>(), 1..8).prop_map(Handshake::Garbage),
             Just(Handshake::Garbage(vec![0x20, 0x03, 0x00, 0x00, 0x05])),
+            // well-framed success CONNACKs that the client rejects while reading the properties:
+            // Receive Maximum 0, Maximum QoS 3 (with either session-present answer)
+            prop::sample::select(vec![
+                vec![0x20u8, 0x06, 0x00, 0x00, 0x03, 0x21, 0x00, 0x00],
+                vec![0x20, 0x05, 0x00, 0x00, 0x02, 0x24, 0x03],
+                vec![0x20, 0x06, 0x01, 0x00, 0x03, 0x21, 0x00, 0x00],
+                vec![0x20, 0x05, 0x01, 0x00, 0x02, 0x24, 0x03],
+            ])
+            .prop_map(Handshake::Garbage),
             Just(Handshake::ServerDisconnect(0x89)),
             (0u8..6).prop_map(Handshake::EofAfter),
             (0u8..6).prop_map(Handshake::StallAfter),
@@ -440,8 +453,8 @@ pub fn conn_script(p: &Profile) -> BoxedStrategy<ConnScript> {
 }
 
 pub fn cfg(p: &Profile) -> BoxedStrategy<Cfg> {
-    (p.rx.0..=p.rx.1, p.tx.0..=p.tx.1, pct(p.downgrade_pct), prop::sample::select(p.keepalive.clone()))
-        .prop_map(|(rx, tx, downgrade, keepalive)| Cfg { rx, tx, downgrade, keepalive, ..Cfg::default() })
+    (p.rx.0..=p.rx.1, p.tx.0..=p.tx.1, pct(p.downgrade_pct), prop::sample::select(p.keepalive.clone()), prop::sample::select(p.session_expiry.clone()))
+        .prop_map(|(rx, tx, downgrade, keepalive, session_expiry)| Cfg { rx, tx, downgrade, keepalive, session_expiry, ..Cfg::default() })
         .boxed()
 }
 
